@@ -239,6 +239,20 @@ func GenScript(t *rapid.T, c GenCfg, names []string, nextID *int) []Step {
 		}
 		script = append(script, st)
 	}
+	if c.Stash && rapid.IntRange(0, 5).Draw(t, "stashBurst") == 0 {
+		// m messages stashed at one actor, then a partial Unstash(n) for every relation of n to m
+		// (n < m, n = m/2, n = m, n > m, n <= 0, no argument), optionally a second Unstash later
+		to := pick("stashTarget")
+		m := rapid.IntRange(1, 6).Draw(t, "stashed")
+		for i := 0; i < m; i++ {
+			script = append(script, Step{Op: "tell", To: to, ID: id(), Do: []Step{{Op: "stash"}}})
+		}
+		n := rapid.SampledFrom([]int{1, m / 2, m - 1, m, m + 2, 0, -1, -999}).Draw(t, "burstUnstashN")
+		script = append(script, Step{Op: "tell", To: to, ID: id(), Do: []Step{{Op: "unstash", N: n}}})
+		if rapid.Bool().Draw(t, "secondUnstash") {
+			script = append(script, Step{Op: "tell", To: to, ID: id(), Do: []Step{{Op: "unstash", N: rapid.SampledFrom([]int{-999, 1, 2}).Draw(t, "secondN")}}})
+		}
+	}
 	return script
 }
 
